@@ -138,6 +138,50 @@ theorem C29_redirect_consistent_V0_refuted :
       getNodeV0 gc 1 = .ok (.define (.user 0) [0, 2]) :=
   ⟨_, _, _, _, _, _, rfl, rfl, rfl, rfl, rfl, rfl, rfl⟩
 
+/-- Every choice node's group id is smaller than the node's own index (so: it is the index of an older node). -/
+def GroupsBelow (db : DB) : Prop := ∀ j g, rawNode db j = .ok (.other tagChoice [g]) → g < j
+
+/-- **Group ids of annotated disjunctions are fresh along the whole chain**: the invariant `GroupsBelow` holds for the
+    empty root, is kept by `extend` and by every sequence of adds, and under it the group id `adGroup db = len(db)`
+    that the next annotated disjunction receives differs from the group id of every choice node the database or any
+    of its ancestors already contains (the engine keys ground choices by (group, arguments, choice index)). -/
+theorem C29_groups_fresh :
+    (∀ b, GroupsBelow (.root { builtins := b })) ∧
+    (∀ db, GroupsBelow db → GroupsBelow (extend db)) ∧
+    (∀ db ops db' log, WF db → GroupsBelow db → run db ops = .ok (db', log) → GroupsBelow db') ∧
+    (∀ db, WF db → GroupsBelow db → ∀ j g, rawNode db j = .ok (.other tagChoice [g]) → g ≠ adGroup db) := by
+  refine ⟨?_, ?_, ?_, ?_⟩
+  · intro b j g h
+    simp [rawNode] at h
+  · intro db hg j g h
+    apply hg j g
+    simp only [extend, rawNode] at h
+    split at h
+    · exact h
+    · simp at h
+  · intro db ops db' log hw hg hr j g h
+    have := run_Good hw ops
+    rw [hr] at this
+    have hs : Spec db db' log := this
+    rcases hs.choices j g h with h1 | ⟨_, h2⟩
+    · exact hg j g h1
+    · exact h2
+  · intro db hw hg j g h
+    have h1 := hg j g h
+    have h2 := rawNode_lt hw h
+    simp only [adGroup]
+    omega
+
+/-- **Refutation for the group id as written before the repair** (`len(self.__nodes)`): a root whose first statement is
+    an annotated disjunction has a choice node with group id 0, and the first annotated disjunction compiled into an
+    extension of it would get group id 0 again (the repaired id is the root's length, 15). -/
+theorem C29_groups_fresh_V0_refuted :
+    ∃ root l0,
+      run (.root { builtins := [(.user 9, 1)] }) [.ad [.user 0, .user 1] (.call (.user 9))] = .ok (root, l0) ∧
+      rawNode root 3 = .ok (.other tagChoice [0]) ∧
+      adGroupV0 (extend root) = 0 ∧ adGroup (extend root) = 15 :=
+  ⟨_, _, rfl, rfl, rfl, rfl⟩
+
 /-! ### Non-vacuity -/
 
 /-- A parent with a clause `p :- q` and a fact `q`; the child adds a fact for `p`, an annotated disjunction with head
